@@ -434,6 +434,16 @@ func printNode(n J) string {
 		return "{% filter " + strings.TrimPrefix(printChain(jlist(n["chain"])), "|") + " %}" + printNodes(jlist(n["body"])) + "{% endfilter %}"
 	case "spaceless":
 		return "{% spaceless %}" + printNodes(jlist(n["body"])) + "{% endspaceless %}"
+	case "templatetag":
+		return "{% templatetag " + jstr(n["name"]) + " %}"
+	case "comment":
+		return "{% comment %}" + printNodes(jlist(n["body"])) + "{% endcomment %}"
+	case "widthratio":
+		s := "{% widthratio " + printExpr(n["a"]) + " " + printExpr(n["m"]) + " " + printExpr(n["w"])
+		if as := jstr(n["as"]); as != "" {
+			s += " as " + as
+		}
+		return s + " %}"
 	case "include":
 		s := `{% include "` + jstr(n["name"]) + `"`
 		if ps := jlist(n["pairs"]); len(ps) > 0 {
